@@ -396,6 +396,8 @@ def open_reader(fmt, simfile, rp):
         kw['remap'] = True
     if rp.get('calc_ct'):
         kw['calc_cis_trans'] = True
+    if rp.get('ignore_stereo'):
+        kw['ignore_stereo'] = True
     if rp.get('buffer_size') and fmt != 'mrv':
         kw['buffer_size'] = rp['buffer_size']
     bs = rp.get('bufsize', 8192)
@@ -788,6 +790,14 @@ def _execute(trace, probes, scratch):
             if len(views) != len(expected):
                 raise Violation('roundtrip-mismatch:count', f'{fmt}: wrote {len(expected)} records, read {len(views)}')
             for i, (e, a) in enumerate(zip(expected, views)):
+                if rp.get('ignore_stereo'):
+                    # documented knob "Ignore stereo data": everything but configuration comes back, and no label at all
+                    import copy as _cp
+                    e = _cp.deepcopy(e)
+                    for mv in ([e] if e.get('kind') == 'mol' else e['r'] + e['p'] + e['a']):
+                        if mv.get('stereo') is not None:
+                            mv['stereo'] = []
+                    probes['ignore_stereo_roundtrips'] += 1
                 d = compare_views(e, a)
                 if d:
                     raise Violation(f'roundtrip-mismatch:{diff_field(d)}', f'{fmt} record {i}: {d}')
@@ -855,6 +865,14 @@ def _execute(trace, probes, scratch):
             probes['intact_matched'] += matched
             if len(views) < len(intact) and not partial:
                 probes['reader_skipped'] += 1
+
+
+def _tuplify(v):
+    if isinstance(v, list):
+        return [_tuplify(x) for x in v]
+    if isinstance(v, dict):
+        return {k: _tuplify(x) for k, x in v.items()}
+    return v
 
 
 def _is_subseq(a, b):
@@ -1105,6 +1123,8 @@ def generate(seed):
             rp['chunk'] = s.choice([1, 3, 7, 64, 511])
         if mode == 'clean' and s.random() < 0.15:
             rp['remap'] = True
+        elif mode == 'clean' and s.random() < 0.1:
+            rp['ignore_stereo'] = True
         if mode == 'readfault':
             r = f.random()
             if r < 0.5:
